@@ -71,6 +71,12 @@ FULL = [
     ('recordFinalFieldAssignment.final_exactly_once_per_constructor', PRE + HOLDER % 'public constructor(int v) -> H { this.fx = v; this.fx = v; this.n = 0; this.a = new A(); this.secret = 1; return this; }' + 'function main() -> void { H h = new H(3); echo(1); }\n', False),
     ('recordFinalFieldAssignment.final_only_in_own_constructor_at_top_level', PRE + HOLDER % 'public constructor(boolean c) -> H { if (c) { this.fx = 2; } this.n = 0; this.a = new A(); this.secret = 1; return this; }' + 'function main() -> void { H h = new H(true); echo(1); }\n', False),
     ('recordFinalFieldAssignment.first_top_level_assignment_accepted', PRE + HOLDER % '' + 'function main() -> void { H h = new H(); echo(h.fx); }\n', True),
+    ('postfix.final_variable_never_incremented', PRE + 'function main() -> void { final int x = 1; x++; echo(x); }\n', False),
+    ('postfix.final_field_never_incremented', PRE + HOLDER % 'public function poke() -> void { fx++; }' + 'function main() -> void { H h = new H(); h.poke(); echo(1); }\n', False),
+    ('postfix.final_field_never_incremented', PRE + 'class Cn { public final int n; public constructor() -> Cn { n++; return this; } }\nfunction main() -> void { Cn c = new Cn(); echo(1); }\n', False),
+    ('postfix.final_field_never_incremented', PRE + 'class Cn { public final int n; public constructor() -> Cn { n--; return this; } }\nfunction main() -> void { Cn c = new Cn(); echo(1); }\n', False),
+    ('postfix.only_int_or_long_variables', PRE + 'function main() -> void { float f = 1.0f; f++; echo(f); }\n', False),
+    ('postfix.int_variable_is_accepted', PRE + HOLDER % 'public function inc() -> void { n++; }' + 'function main() -> void { int i = 0; i++; long l = 1L; l--; H h = new H(); h.inc(); echo(i); }\n', True),
     ('resolveField.inaccessible_field_rejected', PRE + HOLDER % '' + 'class D extends H { public constructor() -> D { super(); return this; } public function leak() -> void { secret = 2; } }\nfunction main() -> void { D d = new D(); d.leak(); echo(1); }\n', False),
     ('resolveField.instance_field_in_static_context_rejected', PRE + HOLDER % 'public static function st() -> void { n = 3; }' + 'function main() -> void { H.st(); echo(1); }\n', False),
 ]
